@@ -1,4 +1,6 @@
 import Martian.Lexer
+import Martian.Regex
+import Martian.Tokenizer
 import Gen.Facts
 import Driver.Util
 
@@ -23,6 +25,21 @@ def actionStr : Action (Bytes × List Bytes) → String
   | .ok (p, args) => "ok " ++ hexOfBytes p ++ " " ++ hexList args
   | .error => "error"
   | .panic => "panic"
+
+def listStr (xs : List String) : String :=
+  if xs.isEmpty then "." else " ".intercalate xs
+
+/-- `C08.lex`: the token stream, the comment blocks and the final position of
+the model's scanner loop -/
+def lexStr (b : Bytes) : String :=
+  let raw := Martian.Tokenizer.lexAllRaw b
+  let T := Martian.Tokenizer.genTables
+  let toks := raw.1.filter fun t => !Martian.Tokenizer.isTrivia T t.id
+  let cms := (raw.1.filter fun t => t.id != Martian.Tokenizer.skipId T && t.id == Martian.Tokenizer.commentId T).map
+    fun t => (t.line, t.col, Martian.Tokenizer.trimRight t.text.length t.text)
+  listStr (toks.map fun t => s!"{t.id}:{hexOfBytes t.text}:{t.line}:{t.col}") ++ " | " ++
+  listStr (cms.map fun c => s!"{c.1}:{c.2.1}:{hexOfBytes c.2.2}") ++ " | " ++
+  toString (b.length - raw.2.length)
 
 def handle (op : String) (args : List String) : Option String :=
   match op, args with
@@ -67,6 +84,36 @@ def handle (op : String) (args : List String) : Option String :=
   | "src0", [s] => do
     let b ← bytesOfHex s
     pure (actionStr (srcActionUnchecked b))
+  -- generic regex matcher on a regex SOURCE text (hex) and an input
+  | "re", [src, s] => do
+    let rs ← bytesOfHex src
+    let b ← bytesOfHex s
+    match Martian.Regex.parseCodes (rs.map UInt8.toNat) with
+    | none => pure "bad"
+    | some r => pure (optTok (Martian.Regex.pmatch r b))
+  -- the regenerated rule regexes through the generic matcher
+  | "rule", [name, s] => do
+    let b ← bytesOfHex s
+    let src ← (match name with
+      | "int" => some Gen.tokIntRegex
+      | "float" => some Gen.tokFloatRegex
+      | "string" => some Gen.tokStringRegex
+      | "id" => some Gen.tokIdRegex
+      | _ => none)
+    match Martian.Regex.parse src with
+    | none => pure "bad"
+    | some r => pure (optTok (Martian.Regex.pmatch r b))
+  -- the whole tokenizer: token stream of the scanner loop / one nextToken call
+  | "lex", [s] => do
+    let b ← bytesOfHex s
+    pure (lexStr b)
+  -- the regenerated token constants, `NAME=id` joined by spaces
+  | "tokids", [] =>
+    pure (listStr (Gen.tokIds.map fun (n, i) => n ++ "=" ++ toString i))
+  | "next", [s] => do
+    let b ← bytesOfHex s
+    let nt := Martian.Tokenizer.nextToken b
+    pure (toString nt.1 ++ " " ++ hexOfBytes nt.2)
   | _, _ => none
 
 end Driver.C08
